@@ -39,7 +39,7 @@ def check(p, patched=True):
     env = dict(os.environ)
     if use_wt and patched: env['STARSIM_REPO'] = TARGET
     rc, out = sh(f'./check {p} --tier quick', cwd=here, timeout=3600, env=env)
-    lines = [l for l in out.split('\n') if l.startswith('VIOLATION') or l.startswith('  ')][:8]
+    lines = [l for l in out.split('\n') if l.startswith('VIOLATION')][:8] + [l for l in out.split('\n') if l.startswith('  ')][:8]
     return dict(exit=rc, wall_s=round(time.time() - t0), violations=[l[:400] for l in lines if l.startswith('VIOLATION')],
                 detail=[l[:400] for l in lines if l.startswith('  ')][:4],
                 no_failing_input=any('no-failing-input-found' in l for l in lines))
